@@ -69,6 +69,7 @@ class Contract:
         self.kind = kw.get("kind", "function")  # function | lemma
         self.covers = kw.get("covers", {})
         self.notes = kw.get("notes", "")
+        self.verified_by = kw.get("verified_by", [])    # for an assumed call-site view: the contracts of the same body that are verified
         self.assumed = kw.get("assumed")        # reason: this contract is used at call sites but cannot be verified against the body (listed as an assumption)
         self.calls_inline = set(kw.get("calls_inline", []))
         self.reveal = set(kw.get("reveal", []))
